@@ -360,6 +360,13 @@ class HttpParser:
             if not self._chunked:
                 self._clen_rest = maxsize
 
+        if self._status_code in (100, 102, 103, 204, 304):
+            # a response with one of these status codes never has a body,
+            # whatever its header fields announce: it ends with its headers
+            # (101 is different: what follows it belongs to the new protocol)
+            self._clen_rest = self._clen = 0
+            self._chunked = False
+
         # detect encoding and set decompress object
         encoding = self._headers.get('content-encoding')
         if self.decompress:
